@@ -61,11 +61,16 @@ CLAIMS = {
              "all four function options) equal their textbook formulas pointwise; laws as lemmas over the kernel contracts (symmetric "
              "percentage error in [0,2] and swap-invariant, zero for a perfect forecast, scale invariance of ratios when no EPS clamp "
              "is active); mean/median absolute scaled error: numerator = aggregate of (y_true, y_pred) with the horizon weights, "
-             "denominator = same aggregate of y_train[sp:] vs y_train[:-sp], clamped; all 18 metric classes: __call__ forwards "
+             "denominator = same aggregate of y_train[sp:] vs y_train[:-sp], clamped; nine public functions (mean / median absolute and "
+             "squared percentage error, median squared error, mean / median / geometric-mean relative absolute error, geometric-mean "
+             "relative squared error): ONE column aggregate over exactly the cells g(kernel(y_true_i, y_pred_i)) with g = abs / square "
+             "(zeros replaced by EPS for the geometric means), weights = horizon_weight when given and the weighted aggregate then, "
+             "optional square root, uniform average over outputs; all 18 metric classes: __call__ forwards "
              "(y_true, y_pred) in that order and each constructor option under the function's own keyword.",
         note="machine arithmetic treated as mathematical (float64 rounding, overflow, NaN not decided); sklearn aggregates "
-             "(mean_absolute_error, median_absolute_error, np.average ...) are external and recorded, not interpreted; the remaining "
-             "metric functions' formulas are covered by the bounded native tier (190k cases quick) only",
+             "(mean_absolute_error, median_absolute_error, np.average / np.median / np.mean, _weighted_percentile, gmean, np.sqrt) are "
+             "external: recorded with their arguments, not interpreted; _weighted_geometric_mean is an ASSUMED contract; the "
+             "asymmetric / squared scaled errors and relative_loss are covered by the bounded native tier (190k cases quick) only",
         technique="contract-based deductive verification: AST->VC generation (pyvc) + z3 (nonlinear real arithmetic)",
         design="6/C06"),
     "C05": dict(
